@@ -252,6 +252,49 @@ let query_lines (cfg : params) (s : state) (addr_ok : z -> bool) (kind : string)
                                               sz p.p_slash; sz p.p_arb; sz p.p_compl] in
       ans_s f (q_params cfg), ans_s f (lq_params cfg)
   | k -> failwith ("unknown query kind " ^ k)
+(* ---- group gen (property C19): printed on export steps only ---- *)
+let ctx_line (c : ctxId) (rc : ctx) =
+  String.concat " " ["c"; ctx_s c; sz rc.c_svc; list_s rc.c_provs; sz rc.c_cons; sz rc.c_input; sz rc.c_cap;
+    sz rc.c_timeout; b2i rc.c_super; b2i rc.c_rep; sz rc.c_freq; sz rc.c_total; sz rc.c_counter; sz rc.c_breq;
+    sz rc.c_bresp; sz rc.c_bthr; b2i rc.c_bdone; state_i rc.c_state; sz rc.c_thr; sz rc.c_mod]
+
+let gen_lines (atoms : z list) (cfg : params) (s : state) : string list =
+  let out = ref [] in
+  let add l = out := l :: !out in
+  let g1 = export_genesis cfg s in
+  List.iter (fun (svc, c) -> add ("gdef " ^ sz svc ^ " " ^ sz c)) g1.g_defs;
+  List.iter (fun ((svc, prov), b) ->
+    add (Printf.sprintf "gb %s %s %s %s %s %s %s %s%s" (sz svc) (sz prov) (sz b.b_deposit) (b2i b.b_avail)
+      (sz b.b_dtime) (sz b.b_owner) (sz b.b_qos) (sz b.b_raw.raw_price) (promos_s b.b_raw.raw_time b.b_raw.raw_vol))) g1.g_binds;
+  List.iter (fun (o, a) -> add ("gwd " ^ sz o ^ " " ^ sz a)) g1.g_wd;
+  List.iter (fun (c, rc) -> add ("g" ^ ctx_line c rc)) g1.g_ctxs;
+  add ("gvalid " ^ b2i (validate_genesis g1));
+  (* the JSON codec is outside the model: the property demands 1; the re-export after import
+     is identical by C19_roundtrip, here recomputed *)
+  add "gjson 1";
+  if validate_genesis g1 then
+    add ("gsame " ^ b2i (export_genesis cfg (import_genesis s.height s.time g1) = g1));
+  (match zero_height_export cfg s with
+   | None -> add "zpanic"
+   | Some (s', g3) ->
+     List.iter (fun a -> add ("bal " ^ sz a ^ " " ^ sz (bal s' (User a)))) atoms;
+     add ("bal -1 " ^ sz (bal s' Escrow));
+     add ("bal -2 " ^ sz (bal s' Deposit));
+     List.iter (fun (c, rc) -> add ("z" ^ ctx_line c rc)) s'.ctxs;
+     add ("zvalid " ^ b2i (validate_genesis g3));
+     add "zjson 1";
+     add ("zsame " ^ b2i (export_genesis cfg (import_genesis s'.height s'.time g3) = g3));
+     List.iter (fun (c, rc) -> add ("zg" ^ ctx_line c rc)) g3.g_ctxs;
+     (match init_genesis s'.height s'.time g3 with
+      | Ok si ->
+        List.iter (fun ((o, svc), p) -> add ("iob " ^ sz o ^ " " ^ sz svc ^ " " ^ sz p)) si.own_bind;
+        List.iter (fun (p, o) -> add ("iown " ^ sz p ^ " " ^ sz o)) si.owner_of;
+        List.iter (fun (o, p) -> add ("iop " ^ sz o ^ " " ^ sz p)) si.own_prov;
+        List.iter (fun ((svc, prov), p) ->
+          add (Printf.sprintf "ipr %s %s %s%s" (sz svc) (sz prov) (sz p.pr_price) (promos_s p.pr_time p.pr_vol))) si.pricing0;
+        add "imported 1"
+      | _ -> add "imported 0"));
+  List.sort compare !out
 
 let () =
   let cfg = ref None and st = ref None and atoms = ref [] and funding = ref [] in
@@ -305,6 +348,7 @@ let () =
         | "O" ->
             start ();
             let step_no = int_of_string (next t) in
+            let kind = (match t.l with k :: _ -> k | [] -> "") in
             (match parse_op t, !cfg, !st with
              | Some o, Some c, Some s ->
                  let oldlog = List.length s.log in
@@ -312,22 +356,29 @@ let () =
                  st := Some s';
                  Printf.printf "R %d %s\n" step_no (match out with ROk -> "ok" | RErr -> "err" | RPanic -> "panic");
                  observe step_no oldlog
-             | None, Some c, Some s ->
+             | None, c, Some s ->
                  Printf.printf "R %d ok\n" step_no;
                  observe step_no (List.length s.log);
-                 let qs = List.rev !pending_q in
-                 pending_q := [];
-                 if qs <> [] then begin
-                   let addr_ok a = (try Hashtbl.find addr_len (sz a) = 20 with Not_found -> false) in
-                   Printf.printf "G %d query %d\n" step_no (2 * List.length qs);
-                   List.iter (fun ql ->
-                     match String.split_on_char ' ' ql with
-                     | _ :: _ :: kind :: args ->
-                         let head = String.concat " " (kind :: args) in
-                         let (g, l) = query_lines c s addr_ok kind { l = args } in
-                         Printf.printf "L g %s = %s\nL l %s = %s\n" head g head l
-                     | _ -> failwith "bad Q line") qs
-                 end
+                 (match kind, c with
+                  | "export", Some c ->
+                      let l = gen_lines (List.rev !atoms) c s in
+                      Printf.printf "G %d gen %d\n" step_no (List.length l);
+                      List.iter (fun x -> print_string "L "; print_string x; print_char '\n') l
+                  | _, Some c ->
+                      let qs = List.rev !pending_q in
+                      pending_q := [];
+                      if qs <> [] then begin
+                        let addr_ok a = (try Hashtbl.find addr_len (sz a) = 20 with Not_found -> false) in
+                        Printf.printf "G %d query %d\n" step_no (2 * List.length qs);
+                        List.iter (fun ql ->
+                          match String.split_on_char ' ' ql with
+                          | _ :: _ :: kind :: args ->
+                              let head = String.concat " " (kind :: args) in
+                              let (g, l) = query_lines c s addr_ok kind { l = args } in
+                              Printf.printf "L g %s = %s\nL l %s = %s\n" head g head l
+                          | _ -> failwith "bad Q line") qs
+                      end
+                  | _ -> ())
              | _ -> failwith "op before header")
         | "E" -> start (); print_string line; print_char '\n'
         | _ -> ()
